@@ -42,6 +42,31 @@ CHECKS = {
              "Sampling, plus an enumerated grid of tie patterns for 1..3 caches; a clean run is evidence, not proof.",
         note="Trusts CPython asyncio Task/Future semantics and simkit's loop (FIFO call_soon, timers never early). "
              "Single-threaded: the caches' thread locks are never contended."),
+    "C04": dict(
+        level="exploration", design="DESIGN.md 4/C04",
+        technique=TECH + ": real TunnelCommunity/PythonCryptoEndpoint/exit sockets on SimNet, causality-linked wire monitor that "
+                         "peels one AEAD layer per link with the recorded session keys, explicit in-flight tamper/inject fault lists",
+        text="Circuits of 1..3 hops built by the real code carry marked payloads of sizes 2..1400 both ways (plus ping and "
+             "speed-test cells) to a simulated outside server. The wire monitor follows each cell from link to link through the "
+             "causality chain and checks with the Rust AEAD primitive that every link carries exactly one layer more/less than "
+             "the next, that no marker and no ciphertext shows up on two links, and that under in-flight byte flips (every "
+             "position in sweep cases), flag flips, circuit-id rewrites, cross-circuit splices, injected and plaintext-claiming "
+             "cells nothing but genuinely sent payloads is ever delivered at the exit or the originator, from the right exit, "
+             "attributed to the right origin and circuit. Seeded sampling of sizes, schedules and fault lists.",
+        note="Trusts ChaCha20-Poly1305 in ipv8_rust_tunnels. Hidden-service e2e circuits and the native Rust endpoint are not "
+             "covered. Loss is not a violation: delivery is demanded only on FIFO fault-free links."),
+    "C14": dict(
+        level="exploration", design="DESIGN.md 4/C14",
+        technique=TECH + ": seeded histories (add/update/status change/clock advance/remove_bad_nodes/closest) on the real "
+                         "RoutingTable under the virtual clock with adversarially clustered ids; Trie vs dict model over all key "
+                         "subsets of length <=3",
+        text="Histories of up to 2000 operations on the real RoutingTable with ids sharing long prefixes with the own id, node "
+             "status driven by the simulated wall clock; after every step the bucket tree is checked to be prefix-free and "
+             "complete (exact integer arithmetic), nodes to sit in their owning bucket, capacities, splits only on the own path, "
+             "closest_nodes to equal a brute-force XOR sort for k in 1..20, generate_id to stay inside its bucket; the Trie is "
+             "compared with a dict model on every query for all key subsets of length <= 3 and random longer ones.",
+        note="Direct histories only (the table inside a simulated DHT network is exercised by C15's scenario). closest_nodes "
+             "calls are rate-limited per case by a deterministic cost estimate."),
     "C16": dict(
         level="exploration", design="DESIGN.md 4/C16",
         technique=TECH + ": arrival schedule of tokens is the searched object (all permutations for <=6 tokens over all 84 rooted "
